@@ -437,7 +437,79 @@ class Effects:
                 out |= self._prop_load(n, f)
             elif isinstance(n, ast.Subscript) and isinstance(n.ctx, ast.Load):
                 out |= self._registry_subscript(n, f)
+                out |= self._buffer_index(n, f)
+            elif isinstance(n, (ast.Compare, ast.BinOp)):
+                out |= self._optional_operand(n, f)
         return out
+
+    def _optional_operand(self, n: ast.AST, f: FuncInfo) -> set[str]:
+        """TypeError for ordering comparisons / arithmetic on an attribute of a received typed
+        message: every AVP attribute is None when the peer left the AVP out."""
+        if self.profile == "faults":
+            return set()
+        if isinstance(n, ast.Compare):
+            if not any(isinstance(o, (ast.Lt, ast.Gt, ast.LtE, ast.GtE)) for o in n.ops):
+                return set()
+            operands = [n.left] + list(n.comparators)
+        else:
+            if isinstance(n.op, (ast.Mod,)) and isinstance(n.left, ast.Constant):
+                return set()
+            operands = [n.left, n.right]
+        from .typesx import expr_type
+        for o in operands:
+            if isinstance(o, ast.Attribute) and isinstance(o.value, ast.Name) \
+                    and o.value.id in [a.arg for a in f.node.args.args]:
+                try:
+                    t = expr_type(self.model, f, o.value)
+                except Exception:
+                    continue
+                if isinstance(t, ClassInfo) and "message" in t.module.name and o.attr not in ("header",) \
+                        and self._is_message_class(t) and not self._none_guarded(o, n, f):
+                    self._note(f, n, ["TypeError"], f"`{ast.unparse(o)}` is None when the AVP is absent")
+                    return {"TypeError"}
+        return set()
+
+    def _is_message_class(self, ci) -> bool:
+        try:
+            return any(b.name == "Message" for b in self.model.mro(ci))
+        except Exception:
+            return False
+
+    def _none_guarded(self, o: ast.Attribute, n: ast.AST, f: FuncInfo) -> bool:
+        """The operand is known to be set: an enclosing test names it (truthiness, `is not None`,
+        hasattr)."""
+        txt = ast.unparse(o)
+        par = A.parents(f.node)
+        cur = n
+        while cur in par:
+            p_ = par[cur]
+            if isinstance(p_, (ast.If, ast.While, ast.IfExp)) and cur is not p_.test:
+                tt = ast.unparse(p_.test)
+                if txt in tt or f"getattr({ast.unparse(o.value)}, '{o.attr}'" in tt:
+                    return True
+            if isinstance(p_, ast.BoolOp) and isinstance(p_.op, ast.And):
+                idx = p_.values.index(cur) if cur in p_.values else 0
+                if any(txt in ast.unparse(v) for v in p_.values[:idx]):
+                    return True
+            cur = p_
+        return False
+
+    def _buffer_index(self, n: ast.Subscript, f: FuncInfo) -> set[str]:
+        """IndexError for indexing (not slicing) a byte buffer: received payloads may be shorter
+        than any fixed position (a slice never raises, an index does)."""
+        if self.profile == "faults" or isinstance(n.slice, ast.Slice):
+            return set()
+        if isinstance(n.slice, ast.Tuple):
+            return set()
+        from .typesx import expr_type
+        try:
+            t = expr_type(self.model, f, n.value)
+        except Exception:
+            return set()
+        if t in ("ext:bytes", "ext:bytearray", "ext:memoryview"):
+            self._note(f, n, ["IndexError"], f"`{ast.unparse(n)}` indexes a byte buffer that may be shorter")
+            return {"IndexError"}
+        return set()
 
     def recv_class(self, e: ast.expr, f: FuncInfo) -> ClassInfo | str | None:
         """Best-effort static type of a receiver expression."""
@@ -492,6 +564,52 @@ class Effects:
         return res
 
     def _call(self, c: ast.Call, f: FuncInfo) -> set[str]:
+        return self._call0(c, f) | self._optional_arg_flow(c, f)
+
+    def _optional_arg_flow(self, c: ast.Call, f: FuncInfo) -> set[str]:
+        """An attribute of a received/typed message (None when the AVP is absent) is passed to a
+        repository function that does arithmetic or an ordering comparison on that parameter."""
+        if self.profile == "faults" or not c.args:
+            return set()
+        opt = []
+        from .typesx import expr_type
+        for i, a in enumerate(c.args):
+            if isinstance(a, ast.Attribute) and isinstance(a.value, ast.Name) and a.attr != "header":
+                try:
+                    t = expr_type(self.model, f, a.value)
+                except Exception:
+                    t = None
+                if isinstance(t, ClassInfo) and self._is_message_class(t) and not self._none_guarded(a, c, f):
+                    opt.append((i, a))
+        if not opt:
+            return set()
+        try:
+            callees = self.resolve_call(c, f)
+        except Exception:
+            return set()
+        for g in callees:
+            params = [x.arg for x in g.node.args.args]
+            if params and params[0] in ("self", "cls"):
+                params = params[1:]
+            for i, a in opt:
+                if i >= len(params):
+                    continue
+                p_ = params[i]
+                for n in A.walk_no_nested(g.node):
+                    ops = []
+                    if isinstance(n, ast.BinOp):
+                        ops = [n.left, n.right]
+                    elif isinstance(n, ast.Compare) and any(
+                            isinstance(o, (ast.Lt, ast.Gt, ast.LtE, ast.GtE)) for o in n.ops):
+                        ops = [n.left] + list(n.comparators)
+                    if any(isinstance(o, ast.Name) and o.id == p_ for o in ops):
+                        self._note(f, c, ["TypeError"],
+                                   f"`{ast.unparse(a)}` (None when the AVP is absent) is passed to "
+                                   f"{g.qualname}, which computes `{ast.unparse(n)[:60]}`", g)
+                        return {"TypeError"}
+        return set()
+
+    def _call0(self, c: ast.Call, f: FuncInfo) -> set[str]:
         name = A.call_name(c)
         fn = c.func
         if self._subst and isinstance(fn, ast.Name) and fn.id == self._subst[0]:
